@@ -326,6 +326,14 @@ func (s *Stack) ForEach(expr string, fn func(index int, value any) error) error 
 
 	rv := reflect.ValueOf(v)
 
+	// A pointer to a collection is the collection, as it is for paths (xs[0])
+	for rv.Kind() == reflect.Ptr {
+		if rv.IsNil() {
+			return nil
+		}
+		rv = rv.Elem()
+	}
+
 	switch rv.Kind() {
 	case reflect.Slice, reflect.Array:
 		// []V
